@@ -92,7 +92,7 @@ class BufferedReader(io.RawIOBase):
         if self.size is not None:
             size = min(size, self.size - self.pos)
             if size <= 0:
-                return r''
+                return b''
         bucket = self.pos // self.buffersize
         end = (self.pos + size) // self.buffersize
         bucket *= self.buffersize
